@@ -28,8 +28,10 @@ def _c12_runs(depth, sdepth, k, dl, maxn):
     for kind in ('queue', 'stack'):
         for d in (1, 0):
             runs.append(['--kind', kind, '--dtor', d, '--maxn', maxn, '--depth', depth, '--stateless', sdepth, '--k', k, '--deadline', dl])
-    for cmp_ in (0, 1):
+    for cmp_ in (0, 1, 2):      # 2: key-style comparator (an element passed as key matches by pointer identity only)
         for d in (1, 0):
+            if cmp_ == 2 and not d:
+                continue
             runs.append(['--kind', 'list', '--cmp', cmp_, '--dtor', d, '--maxn', maxn, '--depth', depth, '--stateless', sdepth, '--k', k, '--deadline', dl])
     return runs
 
@@ -120,6 +122,22 @@ def _c06_cfgs(maxthr, maxtask, with_nested=True):
     return out
 
 
+def _c06_extra(budget, dl, workers, tsan=False):
+    """m_thpool_length / m_thpool_clear called by a running task and by the submitting thread (also while the pool shuts down), and the
+    fault deviation 'the n-th pthread_create fails' (eager pools: inside m_thpool_new; lazy pools: inside m_thpool_add)"""
+    out = []
+    for flags in ((0, 3) if tsan else (0, 1, 2, 3)):
+        for wait in ((1,) if tsan else (1, 0)):
+            for probe in ((3,) if tsan else (1, 2, 12)):
+                out.append(['--threads', 2, '--tasks', 2, '--flags', flags, '--wait', wait, '--submitters', 0, '--nested', 0, '--probe', probe,
+                            '--budget', budget, '--spurious', 0, '--deadline', dl, '--workers', workers, '--prune', 1])
+        if not tsan:
+            for fc in (1, 2):
+                out.append(['--threads', 2, '--tasks', 2, '--flags', flags, '--wait', 1, '--submitters', 0, '--nested', 0, '--failcreate', fc,
+                            '--budget', budget, '--spurious', 0, '--deadline', dl, '--workers', workers, '--prune', 1])
+    return out
+
+
 def _c06_runs(cfgs, budget, spurious, dl, workers, extra=(), sub_budget=None):
     out = []
     for c in cfgs:
@@ -134,17 +152,17 @@ CHECKS['C06'] = dict(
     rule='every schedule (lock/unlock/cond/create/join/yield granularity, signal waiter choice enumerated) of the real thpool.c with real threads under a '
          'serialising scheduler, within the preemption budget; per-schedule oracle: task run counts/arguments, concurrency width, free-return obligations, '
          'use-after-destroy of mutex/condition, deadlock, parked threads at quiescence, ASan (and TSan in the tsan part)',
-    bounds=dict(quick='pools of 1-2 threads x 1-2 tasks x {eager,LAZY,DETACHED,LAZY|DETACHED} x wait_all{0,1}, + two submitter threads, + task submitting to its own pool; preemption budget 2 (state-pruned DFS), ASan; TSan on a subset',
+    bounds=dict(quick='pools of 1-2 threads x 1-2 tasks x {eager,LAZY,DETACHED,LAZY|DETACHED} x wait_all{0,1}, + two submitter threads, + task submitting to its own pool, + m_thpool_length / m_thpool_clear from a running task and from the submitting thread, + fault deviation: the 1st / 2nd pthread_create fails; preemption budget 2 (state-pruned DFS), ASan; TSan on a subset',
                 thorough='up to 3 threads x 3 tasks, budget 3, spurious wake-ups 1, ASan + TSan, pruned/unpruned cross-check'),
     assumptions=['sequentially consistent interleavings at pthread-operation granularity; C11 atomics are not scheduling points',
                  'm_thpool_add racing with m_thpool_free from an unrelated thread is a caller-side use-after-free and is not generated'],
     parallel=4,
     parts=[schedx_part('asan', 'c06_thpool', ['thpool', 'structs', 'utils'],
-                       quick=_c06_runs(_c06_cfgs(2, 2), 2, 0, 100, 4, ['--prune', 1], sub_budget=1),
-                       thorough=_c06_runs(_c06_cfgs(3, 3), 3, 1, 300, 4, ['--prune', 1], sub_budget=2)),
+                       quick=_c06_runs(_c06_cfgs(2, 2), 2, 0, 100, 4, ['--prune', 1], sub_budget=1) + _c06_extra(2, 100, 4),
+                       thorough=_c06_runs(_c06_cfgs(3, 3), 3, 1, 300, 4, ['--prune', 1], sub_budget=2) + _c06_extra(3, 300, 4)),
            schedx_part('tsan', 'c06_thpool', ['thpool', 'structs', 'utils'], variant='tsan',
-                       quick=_c06_runs([c for c in _c06_cfgs(2, 2, False) if c['threads'] == 2 and c['tasks'] == 2 and (not c['submitters'] or (c['flags'] in (0, 3) and c['wait'] == 1))], 1, 0, 100, 4, ['--prune', 1]),
-                       thorough=_c06_runs(_c06_cfgs(2, 3, False), 2, 1, 300, 4, ['--prune', 1]))],
+                       quick=_c06_runs([c for c in _c06_cfgs(2, 2, False) if c['threads'] == 2 and c['tasks'] == 2 and (not c['submitters'] or (c['flags'] in (0, 3) and c['wait'] == 1))], 1, 0, 100, 4, ['--prune', 1]) + _c06_extra(1, 100, 4, True),
+                       thorough=_c06_runs(_c06_cfgs(2, 3, False), 2, 1, 300, 4, ['--prune', 1]) + _c06_extra(2, 300, 4, True))],
 )
 
 
